@@ -75,6 +75,108 @@ def sameLeavesT : TForest → TForest → Bool
   | .agg _ _ kids next, .agg _ _ kids' next' => sameLeavesT kids kids' && sameLeavesT next next'
   | _, _ => false
 
+
+/-! ### Repeated reports and non-uniform presets (seed C11-7)
+
+A role made by `NewAggregatorRole` is born with the zero values UNKNOWN/UNDEFINED, a loaded role (and a copy an
+iterator generates) with STANDBY/INACTIVE: before the first update reaches it, such an aggregator is NOT the fold
+of its subtree. What the code guarantees then is local and per update: after `UpdateStatus` of a leaf every
+aggregator ABOVE that leaf is the fold of the values its children report — whether or not the leaf's value changed. -/
+
+/-- Every aggregator on the path is the (one-level) fold of its children's reported status. -/
+def pathStatusOkT : TForest → List Nat → Bool
+  | .nil, _ => true
+  | _, [] => true
+  | .leaf _ _ _ _ next, (i+1) :: rest => pathStatusOkT next (i :: rest)
+  | .leaf _ _ _ _ _, 0 :: _ => true
+  | .agg _ su kids _, 0 :: rest => decide (su = aggregateStatusT kids) && pathStatusOkT kids rest
+  | .agg _ _ _ next, (i+1) :: rest => pathStatusOkT next (i :: rest)
+
+/-- Hypothesis on the tree before the update: every aggregator on the path either has folded nothing yet
+    (zero value UNDEFINED) or is the fold of its children. -/
+def pathStatusPreT : TForest → List Nat → Bool
+  | .nil, _ => true
+  | _, [] => true
+  | .leaf _ _ _ _ next, (i+1) :: rest => pathStatusPreT next (i :: rest)
+  | .leaf _ _ _ _ _, 0 :: _ => true
+  | .agg _ su kids _, 0 :: rest =>
+      (decide (su = .UNDEFINED) || decide (su = aggregateStatusT kids)) && pathStatusPreT kids rest
+  | .agg _ _ _ next, (i+1) :: rest => pathStatusPreT next (i :: rest)
+
+/-- (state, status) of the role at `path`. -/
+def valAtT : TForest → List Nat → Option (TState × TStatus)
+  | .nil, _ => none
+  | _, [] => none
+  | .leaf _ _ st su _, [0] => some (st, su)
+  | .leaf _ _ _ _ _, 0 :: _ :: _ => none
+  | .leaf _ _ _ _ next, (i+1) :: rest => valAtT next (i :: rest)
+  | .agg st su _ _, [0] => some (st, su)
+  | .agg _ _ kids _, 0 :: r :: rest => valAtT kids (r :: rest)
+  | .agg _ _ _ next, (i+1) :: rest => valAtT next (i :: rest)
+
+/-- All roles born with the loader's presets (what every tree built from YAML looks like). -/
+def uniformInitT : TForest → Bool
+  | .nil => true
+  | .leaf _ _ st su next => decide (st = .STANDBY) && decide (su = .INACTIVE) && uniformInitT next
+  | .agg st su kids next => decide (st = .STANDBY) && decide (su = .INACTIVE) && uniformInitT kids && uniformInitT next
+
+
+/-- Every aggregator has folded nothing yet (zero value UNDEFINED) or is the fold of what its children report.
+    Holds of every tree the harness builds (loaded roles: INACTIVE everywhere; `NewAggregatorRole`: UNDEFINED). -/
+def zeroOrFoldT : TForest → Bool
+  | .nil => true
+  | .leaf _ _ _ _ next => zeroOrFoldT next
+  | .agg _ su kids next =>
+      (decide (su = .UNDEFINED) || decide (su = aggregateStatusT kids)) && zeroOrFoldT kids && zeroOrFoldT next
+
+/-- The update addresses a task/call role. -/
+def reachesLeafT : TForest → List Nat → Bool
+  | .nil, _ => false
+  | _, [] => false
+  | .leaf _ _ _ _ _, [0] => true
+  | .leaf _ _ _ _ _, 0 :: _ :: _ => false
+  | .leaf _ _ _ _ next, (i+1) :: rest => reachesLeafT next (i :: rest)
+  | .agg _ _ kids _, 0 :: rest => reachesLeafT kids rest
+  | .agg _ _ _ next, (i+1) :: rest => reachesLeafT next (i :: rest)
+
+
+/-- Every update of the sequence addresses a task/call role of the tree it meets. -/
+def reachAllT (f : TForest) : List Update → Bool
+  | [] => true
+  | .state p s :: us => reachesLeafT f (0 :: p) && reachAllT (updStateT f (0 :: p) s).1 us
+  | .status p s :: us => reachesLeafT f (0 :: p) && reachAllT (updStatusT f (0 :: p) s).1 us
+
+/-- Spec for one step `g --u--> g'` observed on a tree with non-uniform presets. -/
+def stepOkT (g' : TForest) : Update → Bool
+  | .status p s => pathStatusOkT g' (0 :: p) && decide ((valAtT g' (0 :: p)).map (·.2) = some s)
+  | .state p s => decide ((valAtT g' (0 :: p)).map (·.1) = some s)
+
+/-- Spec for a whole observation `g0, g1, …` of updates `us` (pairs each update with the tree AFTER it). -/
+def stepsOkT : List TForest → List Update → Bool
+  | _ :: g' :: gs, u :: us => stepOkT g' u && stepsOkT (g' :: gs) us
+  | _, _ => true
+
+/-- The variant "a report that does not change the leaf is not handed upward" — NOT the code
+    (taskRole/callRole.updateStatus call `t.parent.updateStatus(s)` unconditionally). -/
+def updStatusSkipT : TForest → List Nat → TStatus → TForest × Option TStatus
+  | .nil, _, _ => (.nil, none)
+  | f, [], _ => (f, none)
+  | .leaf c tr st su next, [0], s => (.leaf c tr st s next, if su = s then none else some s)
+  | .leaf c tr st su next, 0 :: _ :: _, _ => (.leaf c tr st su next, none)
+  | .leaf c tr st su next, (i+1) :: rest, s =>
+      let r := updStatusSkipT next (i :: rest) s
+      (.leaf c tr st su r.1, r.2)
+  | .agg st su kids next, 0 :: rest, s =>
+      let r := updStatusSkipT kids rest s
+      match r.2 with
+      | none => (.agg st su r.1 next, none)
+      | some v =>
+        let su' := mergeStatusT su v r.1
+        (.agg st su' r.1 next, some su')
+  | .agg st su kids next, (i+1) :: rest, s =>
+      let r := updStatusSkipT next (i :: rest) s
+      (.agg st su kids r.1, r.2)
+
 /-- Full-strength Spec for one observed tree. -/
 def SpecT (f : TForest) : Bool := stateOkT f && statusOkT f
 
